@@ -2,7 +2,7 @@
 # audit_status.sh [pattern] — run the third-audit variants (x* must fire on their property, y* must be silent)
 pat=${1:-.}
 props=$(jq -r '[.checks[].property_id]|join(" ")' /verif/MANIFEST.json)
-for j in /verif/selftest/variants/[xy]a*.json; do
+for j in /verif/selftest/variants/[xy]a[0-9]*.json; do
   n=$(basename $j .json); echo $n | grep -q "$pat" || continue
   kind=$(jq -r .kind $j)
   if [ $kind = breaking ]; then
